@@ -17,6 +17,8 @@ for d in sorted(os.listdir(f"{ROOT}/seeded")):
         r = subprocess.run(["./check", prop, "quick"], cwd=ROOT, capture_output=True, text=True)
     finally:
         subprocess.run(["git", "-C", "/repo", "checkout", "--", "."])
+        # the generated tables follow the source: bring them back to the restored tree
+        subprocess.run(["python3", "/verif/tools/extract_tables.py"], capture_output=True)
     out = r.stdout.strip().split("\n")
     vline = next((l for l in out if l.startswith("VIOLATION")), "")
     summary = out[-1] if out else ""
